@@ -13,8 +13,11 @@
 EXTENDS WsHub, Json, SequencesExt
 
 VARIABLES l, casting,   \* casting: room whose broadcast loop is running ("" = none)
-          made          \* rooms that exist (created by the first join attempt)
-tvars == <<vars, l, casting, made>>
+          made,         \* rooms that exist (created by the first join attempt)
+          snap          \* the rooms that existed when the hub began taking the current connection out of all rooms:
+                        \* RemoveConnectionFromAllRooms walks the room list as it is then; a room created meanwhile
+                        \* may or may not be visited
+tvars == <<vars, l, casting, made, snap>>
 Trace == ndJsonDeserialize("trace.ndjson")
 N == Len(Trace)
 Ev == Trace[l]
@@ -22,7 +25,7 @@ Is(e) == l <= N /\ Trace[l].ev = e
 Consume == l' = l + 1
 Stay == l' = l
 
-TraceInit == Init /\ l = 1 /\ casting = "" /\ made = {} /\ TLCSet(1, 0)
+TraceInit == Init /\ l = 1 /\ casting = "" /\ made = {} /\ snap = {} /\ TLCSet(1, 0)
 
 TReset ==
     /\ Is("Reset")
@@ -30,24 +33,24 @@ TReset ==
     /\ closed' = [c \in Conns |-> FALSE] /\ q' = [c \in Conns |-> <<>>]
     /\ members' = [r \in Rooms |-> {}] /\ view' = [c \in Conns |-> {}] /\ mu' = [c \in Conns |-> "free"]
     /\ hub' = Idle /\ pend' = {} /\ cop' = [c \in Conns |-> CIdle] /\ crashed' = FALSE /\ hist' = <<>>
-    /\ casting' = "" /\ made' = {} /\ Consume
+    /\ casting' = "" /\ made' = {} /\ snap' = {} /\ Consume
 
 \* ---- silent requests, enabled only in front of the event that needs them
-SReqRegister == l <= N /\ "c" \in DOMAIN Ev /\ life[Ev.c] = "new" /\ ReqRegister(Ev.c) /\ Stay /\ UNCHANGED <<casting, made>>
-SReqUnregister == Is("Unreg1") /\ [k |-> "unreg", c |-> Ev.c] \notin pend /\ ReqUnregister(Ev.c) /\ Stay /\ UNCHANGED <<casting, made>>
-SReqBroadcast == Is("BcastBegin") /\ pend = {x \in pend : x.k # "bcast"} /\ ReqBroadcast("m") /\ Stay /\ UNCHANGED <<casting, made>>
+SReqRegister == l <= N /\ "c" \in DOMAIN Ev /\ life[Ev.c] = "new" /\ ReqRegister(Ev.c) /\ Stay /\ UNCHANGED <<casting, made, snap>>
+SReqUnregister == Is("Unreg1") /\ [k |-> "unreg", c |-> Ev.c] \notin pend /\ ReqUnregister(Ev.c) /\ Stay /\ UNCHANGED <<casting, made, snap>>
+SReqBroadcast == Is("BcastBegin") /\ pend = {x \in pend : x.k # "bcast"} /\ ReqBroadcast("m") /\ Stay /\ UNCHANGED <<casting, made, snap>>
 
 TReg ==
     /\ Is("Reg") /\ [k |-> "reg", c |-> Ev.c] \in pend
     /\ HubRegister /\ life'[Ev.c] = (IF Ev.ok THEN "live" ELSE "rejected")
     /\ pend' = pend \ {[k |-> "reg", c |-> Ev.c]}
-    /\ Consume /\ UNCHANGED <<casting, made>>
+    /\ Consume /\ UNCHANGED <<casting, made, snap>>
 
 TUnreg1 ==
     /\ Is("Unreg1") /\ [k |-> "unreg", c |-> Ev.c] \in pend
     /\ HubUnreg1 /\ pend' = pend \ {[k |-> "unreg", c |-> Ev.c]}
     /\ Ev.found <=> (Ev.c \in registered)
-    /\ Consume /\ UNCHANGED <<casting, made>>
+    /\ Consume /\ UNCHANGED <<casting, made, snap>>
 
 \* CloseSend: either the tear-down step of an unregister, or the start of an eviction
 TCloseSend ==
@@ -57,7 +60,7 @@ TCloseSend ==
           /\ open' = [open EXCEPT ![Ev.c] = FALSE]
           /\ hub' = H("evict1", Ev.c, "Evict", hub.rest \ {Ev.c}, hub.m, {})
           /\ UNCHANGED <<life, registered, closed, q, members, view, mu, pend, cop, crashed, hist>>
-    /\ Consume /\ UNCHANGED <<casting, made>>
+    /\ Consume /\ UNCHANGED <<casting, made, snap>>
 
 TEvict1 ==
     /\ Is("Evict1") /\ hub.pc = "evict1" /\ hub.c = Ev.c
@@ -65,9 +68,9 @@ TEvict1 ==
     /\ life' = [life EXCEPT ![Ev.c] = "gone"]
     /\ hub' = [hub EXCEPT !.pc = "mark"]
     /\ UNCHANGED <<open, closed, q, members, view, mu, pend, cop, crashed, hist>>
-    /\ Consume /\ UNCHANGED <<casting, made>>
+    /\ Consume /\ UNCHANGED <<casting, made, snap>>
 
-TMarkClosed == Is("MarkClosed") /\ hub.c = Ev.c /\ HubMarkClosed /\ Consume /\ UNCHANGED <<casting, made>>
+TMarkClosed == Is("MarkClosed") /\ hub.c = Ev.c /\ HubMarkClosed /\ Consume /\ snap' = made /\ UNCHANGED <<casting, made>>
 
 \* RoomRemove: a hub tear-down removal, or the second half of LeaveRoom
 TRoomRemove ==
@@ -78,25 +81,25 @@ TRoomRemove ==
           /\ UNCHANGED <<life, registered, open, closed, q, view, mu, pend, cop, crashed, hist>>
        \/ /\ cop[Ev.c].pc = "remove" /\ cop[Ev.c].r = Ev.r
           /\ LeaveRemove(Ev.c)
-    /\ Consume /\ UNCHANGED <<casting, made>>
+    /\ Consume /\ UNCHANGED <<casting, made, snap>>
 
 \* rooms that were never created produce no RoomRemove event: they may be skipped when the
 \* connection is not a member (a member that is not removed makes the trace stall)
 SRoomsDone ==
     /\ Is("ClearView") /\ hub.pc = "rooms" /\ hub.c = Ev.c
-    /\ hub.todo \cap made = {}
+    /\ hub.todo \cap snap = {}
     /\ hub' = [hub EXCEPT !.pc = "clear", !.todo = {}]
     /\ UNCHANGED <<life, registered, open, closed, q, members, view, mu, pend, cop, crashed, hist>>
-    /\ Stay /\ UNCHANGED <<casting, made>>
+    /\ Stay /\ UNCHANGED <<casting, made, snap>>
 
-TClearView == Is("ClearView") /\ hub.pc = "clear" /\ hub.c = Ev.c /\ HubClearView /\ Consume /\ UNCHANGED <<casting, made>>
+TClearView == Is("ClearView") /\ hub.pc = "clear" /\ hub.c = Ev.c /\ HubClearView /\ Consume /\ UNCHANGED <<casting, made, snap>>
 
-TBcastBegin == Is("BcastBegin") /\ HubBroadcastBegin /\ Consume /\ UNCHANGED <<casting, made>>
+TBcastBegin == Is("BcastBegin") /\ HubBroadcastBegin /\ Consume /\ UNCHANGED <<casting, made, snap>>
 TBcastEnd ==
     /\ Is("BcastEnd") /\ hub.pc = "bcast"
     /\ hub' = Idle
     /\ UNCHANGED <<life, registered, open, closed, q, members, view, mu, pend, cop, crashed, hist>>
-    /\ Consume /\ UNCHANGED <<casting, made>>
+    /\ Consume /\ UNCHANGED <<casting, made, snap>>
 
 \* a non-blocking enqueue attempt: by the hub broadcast loop (connection in hub.rest), by a room
 \* broadcast (connection is a member of the room being cast), never successful on a closed queue
@@ -108,36 +111,36 @@ TTrySend ==
        \/ /\ casting # "" /\ Ev.c \in members[casting]
           /\ UNCHANGED hub
     /\ UNCHANGED <<life, registered, open, closed, q, members, view, mu, pend, cop, crashed, hist>>
-    /\ Consume /\ UNCHANGED <<casting, made>>
+    /\ Consume /\ UNCHANGED <<casting, made, snap>>
 
-TRoomCastBegin == Is("RoomCastBegin") /\ casting = "" /\ casting' = Ev.r /\ UNCHANGED <<vars, made>> /\ Consume
-TRoomCastEnd == Is("RoomCastEnd") /\ casting = Ev.r /\ casting' = "" /\ UNCHANGED <<vars, made>> /\ Consume
+TRoomCastBegin == Is("RoomCastBegin") /\ casting = "" /\ casting' = Ev.r /\ UNCHANGED <<vars, made, snap>> /\ Consume
+TRoomCastEnd == Is("RoomCastEnd") /\ casting = Ev.r /\ casting' = "" /\ UNCHANGED <<vars, made, snap>> /\ Consume
 
 TSend ==
     /\ Is("Send")
     /\ (Ev.res = "closed") <=> ~open[Ev.c]
-    /\ UNCHANGED vars /\ Consume /\ UNCHANGED <<casting, made>>
+    /\ UNCHANGED vars /\ Consume /\ UNCHANGED <<casting, made, snap>>
 
 \* JoinRoom: JoinBegin is silent in front of RoomAdd; a refused join is one logged step
 SJoinBegin ==
     /\ Is("RoomAdd") /\ cop[Ev.c].pc = "idle" /\ ~closed[Ev.c]
     /\ casting # Ev.r                     \* room.mu is held by the broadcaster
-    /\ JoinBegin(Ev.c, Ev.r) /\ Stay /\ UNCHANGED <<casting, made>>
-TJoinRefused == Is("JoinRefused") /\ closed[Ev.c] /\ JoinBegin(Ev.c, Ev.r) /\ Consume /\ UNCHANGED <<casting, made>>
+    /\ JoinBegin(Ev.c, Ev.r) /\ Stay /\ UNCHANGED <<casting, made, snap>>
+TJoinRefused == Is("JoinRefused") /\ closed[Ev.c] /\ JoinBegin(Ev.c, Ev.r) /\ Consume /\ UNCHANGED <<casting, made, snap>>
 TRoomAdd ==
     /\ Is("RoomAdd") /\ cop[Ev.c].pc = "add" /\ cop[Ev.c].r = Ev.r
     /\ casting # Ev.r
     /\ JoinAdd(Ev.c)
     /\ Ev.ok <=> (Ev.c \in members'[Ev.r] /\ cop'[Ev.c].pc = "mark")
-    /\ made' = made \cup {Ev.r}
+    /\ made' = made \cup {Ev.r} /\ UNCHANGED snap
     /\ Consume /\ UNCHANGED casting
-TViewAdd == Is("ViewAdd") /\ cop[Ev.c].pc = "mark" /\ cop[Ev.c].r = Ev.r /\ JoinMark(Ev.c) /\ Consume /\ UNCHANGED <<casting, made>>
-TViewDel == Is("ViewDel") /\ LeaveBegin(Ev.c, Ev.r) /\ Consume /\ UNCHANGED <<casting, made>>
+TViewAdd == Is("ViewAdd") /\ cop[Ev.c].pc = "mark" /\ cop[Ev.c].r = Ev.r /\ JoinMark(Ev.c) /\ Consume /\ UNCHANGED <<casting, made, snap>>
+TViewDel == Is("ViewDel") /\ LeaveBegin(Ev.c, Ev.r) /\ Consume /\ UNCHANGED <<casting, made, snap>>
 
 SLeaveDone ==   \* LeaveRoom on a room that does not exist logs no RoomRemove
     /\ l <= N
     /\ \E c \in Conns : cop[c].pc = "remove" /\ cop[c].r \notin made /\ LeaveRemove(c)
-    /\ Stay /\ UNCHANGED <<casting, made>>
+    /\ Stay /\ UNCHANGED <<casting, made, snap>>
 
 \* the projected real state at quiescence equals the specification's state
 TFinal ==
@@ -146,7 +149,7 @@ TFinal ==
     /\ registered = ToSet(Ev.st.registered)
     /\ \A r \in Rooms : members[r] = ToSet(Ev.st.members[r])
     /\ \A c \in Conns : view[c] = ToSet(Ev.st.view[c]) /\ open[c] = Ev.st.open[c] /\ closed[c] = Ev.st.closed[c]
-    /\ UNCHANGED vars /\ Consume /\ UNCHANGED <<casting, made>>
+    /\ UNCHANGED vars /\ Consume /\ UNCHANGED <<casting, made, snap>>
 
 TraceNext == TFinal \/ SLeaveDone \/ TReset \/ SReqRegister \/ SReqUnregister \/ SReqBroadcast \/ TReg \/ TUnreg1 \/ TCloseSend
              \/ TEvict1 \/ TMarkClosed \/ TRoomRemove \/ SRoomsDone \/ TClearView \/ TBcastBegin \/ TBcastEnd
